@@ -113,6 +113,26 @@ class Rewriter:
         if len(ds) == 1 and len(whole) == 1: return whole[0]
         return None
 
+    def reads(self, local):
+        """number of places that mention `local` other than as the destination of its definition (drops not counted)"""
+        def walk(x):
+            if isinstance(x, dict):
+                if 'l' in x and 'p' in x and x['l'] == local: return 1
+                return sum(walk(v) for v in x.values())
+            if isinstance(x, list):
+                return sum(walk(v) for v in x)
+            return 0
+        n = 0
+        for b in self.blocks:
+            for st in b['st']:
+                n += walk(st.get('rv'))
+                if 'dst' in st and st['dst']['l'] == local and st['dst']['p']: n += 1
+            t = b['term']
+            if t['k'] == 'drop': continue
+            n += sum(walk(v) for k, v in t.items() if k != 'dst')
+            if 'dst' in t and t['dst']['l'] == local and t['dst']['p']: n += 1
+        return n
+
     # ---- splice a callee body
     promoted_of = None      # set by the Normalizer: (const text, callee name) -> resolvable const text
 
@@ -314,6 +334,11 @@ class Normalizer:
                 # `for x in <adapted iterator>`: into_iter of an iterator is the identity
                 a = t['args'][0]['pl']['l']
                 d2 = rw.single_def(a)
+                for _k in range(4):     # `let it = xs.iter().map(f); for x in it`: plain moves between the adaptor and into_iter
+                    if d2 is not None and d2[0] == 'stmt' and d2[2]['rv']['k'] == 'use' and d2[2]['rv']['ops'][0]['k'] in ('move', 'copy') \
+                            and not d2[2]['rv']['ops'][0]['pl']['p']:
+                        a = d2[2]['rv']['ops'][0]['pl']['l']; d2 = rw.single_def(a)
+                    else: break
                 if d2 is not None and d2[0] == 'call' and _is_iter_trait(d2[2]) and (d2[2]['ri'].get('item') in CLOSURE_ADAPTORS):
                     cur = a; continue
             break
@@ -448,7 +473,14 @@ class Normalizer:
     def _desugar_consumer(self, rw, bi, t, item):
         a = t['args'][0]
         if a['k'] not in ('move', 'copy') or a['pl']['p']: return False
-        base, chain = self._walk_chain(rw, a['pl']['l'])
+        start = a['pl']['l']
+        # consumers with a `&mut self` receiver (`it.filter(p).try_fold(..)`, `find`, `any`, ..): the receiver is
+        # `&mut <temporary>`; look through the borrow when the temporary is mentioned nowhere else
+        d0 = rw.single_def(start)
+        if d0 is not None and d0[0] == 'stmt' and d0[2]['rv']['k'] == 'ref' and d0[2]['rv']['pl']['p'] == [] \
+                and rw.reads(start) == 1 and rw.reads(d0[2]['rv']['pl']['l']) == 1:
+            start = d0[2]['rv']['pl']['l']
+        base, chain = self._walk_chain(rw, start)
         t['desugared'] = True
         span = t.get('span'); line = (span or {}).get('lo', 0)
         dst = t['dst']; after = t['t']
